@@ -312,4 +312,36 @@ example :
     c.ts.all (·.done) = true := by
   decide +kernel
 
+/-! ## The two repaired defects, as theorems about the pinned code (record) -/
+
+/-- F19 (fixed by `fix: release the collation lock and raise FOCH0002 when the fallback locale is
+unsupported too`): on the pinned tree, whenever neither the requested locale nor `en_US.UTF-8`
+is installed and fallback is on, `__enter__` lets a bare `locale.Error` escape with the lock
+held — and then the next locale-switching `__enter__` (pinned or fixed) blocks forever. -/
+theorem pinned_F19_lock_left_held (w : World) (rt : Loc → Option Loc) (m m' : Mgr) (σ : State)
+    (req : Req) (hl : σ.lock = false) (hm : m.lc = some req) (hfb : m.fallback = true)
+    (h1 : w.avail (w.norm req) = false) (h2 : w.avail enUS = false) (hrt : (rt σ.lc).isSome = true)
+    (hm' : m'.lc.isSome = true) :
+    ∃ σ', Pinned.enter w rt m σ = .err .localeError σ' ∧ σ'.lock = true ∧ σ'.lc = σ.lc ∧
+      enter w m' σ' = .stuck σ' := by
+  obtain ⟨saved, hs⟩ := Option.isSome_iff_exists.mp hrt
+  refine ⟨logFail (logFail { σ with lock := true } (w.norm req)) enUS, ?_, rfl, rfl, ?_⟩
+  · simp [Pinned.enter, hm, hl, hs, setloc, h1, h2, hfb, logFail]
+  · exact enter_held w m' _ hm' rfl
+
+/-- F19c (fixed by `fix: save and restore LC_COLLATE by its exact name`): on the pinned tree an
+initial locale name that `getlocale` cannot parse makes `__enter__` raise `ValueError` with the
+lock held (kernel-checked instance: `LC_COLLATE = "mylocale"`). -/
+theorem pinned_F19c_witness :
+    let w : World := ⟨fun n => n == "mylocale" || n == "de_DE.UTF-8", fun
+      | .name s => s
+      | .pair l => l ++ ".UTF-8"⟩
+    let rt : Loc → Option Loc := fun n => if n == "mylocale" then none else some n
+    let σ : State := ⟨false, "mylocale", [], "", []⟩
+    (∃ σ', Pinned.enter w rt ⟨some (.name "de_DE.UTF-8"), false⟩ σ = .err .valueError σ' ∧
+      σ'.lock = true) ∧
+    (∃ out σ', evalEv w (.call (.ok ⟨some (.name "de_DE.UTF-8"), false⟩) [] none) σ = .ok out σ' ∧
+      σ'.lock = false ∧ σ'.lc = "mylocale") := by
+  exact ⟨⟨_, rfl, rfl⟩, ⟨_, _, rfl, rfl, rfl⟩⟩
+
 end EPV.C19
